@@ -207,6 +207,13 @@ def build(spec):
             img = Image.fromarray(rs.randint(0, 255, (2, 2, 3)).astype(np.uint8))
             mat = trimesh.visual.material.SimpleMaterial(image=img, diffuse=[10, 20, 30, 255])
             m.visual = trimesh.visual.TextureVisuals(uv=rs.rand(nv, 2), material=mat)
+        elif vis == "default_inplace":
+            # colours that were never assigned: read the default face colours, then edit the default vertex colours in place
+            _ = m.visual.face_colors
+            m.visual.vertex_colors[0] = [255, 0, 0, 255]
+        elif vis == "default_inplace_face":
+            _ = m.visual.vertex_colors
+            m.visual.face_colors[0] = [0, 255, 0, 255]
         elif vis == "pbr":
             mat = trimesh.visual.material.PBRMaterial(baseColorFactor=[100, 150, 200, 255], metallicFactor=0.3, roughnessFactor=0.6)
             m.visual = trimesh.visual.TextureVisuals(uv=rs.rand(nv, 2), material=mat)
@@ -455,6 +462,29 @@ class _Skip(Exception):
     pass
 
 
+def pre_edit(o):
+    """an in-place edit of stored data that is NOT followed by any read before the copy is taken"""
+    if isinstance(o, primitives.Primitive):
+        if hasattr(o.primitive, "radius"):
+            o.primitive.radius = float(o.primitive.radius) * 1.5
+        elif hasattr(o.primitive, "extents"):
+            o.primitive.extents = np.array(o.primitive.extents) * 1.5
+        else:
+            o.primitive.height = float(o.primitive.height) * 1.5
+    elif isinstance(o, trimesh.Trimesh):
+        o.vertices *= 1.5
+        o.faces[0] = o.faces[0][::-1].copy()
+    elif isinstance(o, trimesh.path.path.Path):
+        o.vertices[0] += 0.25
+    elif isinstance(o, trimesh.PointCloud):
+        o.vertices[0] += 1.0
+    elif isinstance(o, trimesh.voxel.VoxelGrid):
+        o.apply_translation([3.0, 0.0, 0.0])
+    elif isinstance(o, trimesh.Scene):
+        o.geometry["box"].vertices[0] += 1.0
+        o.graph.update(frame_to="n1", frame_from="n0", matrix=trimesh.transformations.translation_matrix([7, 7, 7]))
+
+
 # ----------------------------------------------------------------------------------- body
 
 
@@ -466,7 +496,13 @@ def b_copy(case, ctx):
         if how in ("copy_cache", "copy_novisual") and not (isinstance(o, trimesh.Trimesh) and (how != "copy_cache" or not isinstance(o, primitives.Primitive))):
             how = "copy"
         kind = case["spec"]["kind"] + (":" + case["spec"].get("prim", "") if case["spec"]["kind"] == "primitive" else "")
-        s0 = snapshot(o)
+        # the reference state comes from an identically built twin, so that the object which is copied has NOT been
+        # read (and its caches not re-validated) between its last edit and the copy
+        twin = build(case["spec"])
+        if case["spec"].get("pre_edit"):
+            pre_edit(o)
+            pre_edit(twin)
+        s0 = snapshot(twin)
         try:
             c = do_copy(o, how)
         except Exception as e:  # noqa
@@ -524,10 +560,10 @@ def b_copy(case, ctx):
 @st.composite
 def spec(draw):
     kind = draw(st.sampled_from(["mesh", "mesh", "primitive", "primitive", "path", "points", "voxel", "scene"]))
-    s = {"kind": kind, "seed": draw(st.integers(0, 10**6)), "warm": draw(st.booleans())}
+    s = {"kind": kind, "seed": draw(st.integers(0, 10**6)), "warm": draw(st.booleans()), "pre_edit": draw(st.booleans())}
     if kind == "mesh":
         s["mesh"] = draw(gmesh.mesh_spec(kinds=["tetra", "box", "octa", "prism"], max_parts=1, jitter=True))
-        s["visual"] = draw(st.sampled_from([None, "face", "vertex", "texture", "pbr"]))
+        s["visual"] = draw(st.sampled_from([None, "face", "vertex", "texture", "pbr", "default_inplace", "default_inplace_face"]))
         s["density"] = draw(st.booleans())
     elif kind == "primitive":
         s["prim"] = draw(st.sampled_from(["Box", "Sphere", "Cylinder", "Capsule", "Extrusion"]))
@@ -584,6 +620,11 @@ def grid_cases():
         specs.append({"kind": "primitive", "seed": 1, "warm": True, "prim": pk, "T": T, "radius": 1.5, "height": 2.5, "extents": [1, 2, 3], "sections": 9, "subdivisions": 1, "visual": "face"})
     for enc in ("dense", "sparse", "rle", "brle"):
         specs.append({"kind": "voxel", "seed": 1, "warm": enc != "dense", "encoding": enc, "T": T})
+    specs += [
+        {"kind": "mesh", "seed": 5, "warm": True, "mesh": {"parts": [{"kind": "box", "ext": [1, 2, 3]}]}, "visual": "default_inplace", "density": False},
+        {"kind": "mesh", "seed": 6, "warm": False, "mesh": {"parts": [{"kind": "octa"}]}, "visual": "default_inplace_face", "density": False},
+    ]
+    specs = specs + [dict(sp, pre_edit=True) for sp in specs]
     for s in specs:
         hows = ["copy", "copy.copy", "deepcopy"] + (["copy_cache", "copy_novisual"] if s["kind"] == "mesh" else [])
         for how in hows:
